@@ -73,7 +73,7 @@ func run(c *core.Ctx, d *desc, record bool) error {
 		w := 0
 		for _, ms := range d.Msgs {
 			for _, m := range ms {
-				w += len(m.Bytes())
+				w += len(m.Bytes()) + 200*len(m.Chunks)
 			}
 		}
 		c.AddCaseW(term, d, 1+w/4000)
@@ -265,6 +265,28 @@ func gen(c *core.Ctx) error {
 			Msgs: [][]ss.Msg{{{Kind: "buffered", Chunks: chunksOf(i, parts)}, {Kind: "buffered", Chunks: chunksOf(i+9, []int{2})}}}}
 		try(d)
 		c.Count("buffered-mixed-sizes")
+	}
+	// 2f. messages of very many frames: the sender puts no bound on the number of partial frames of one
+	// message (SendPartialMessage any number of times; WriteMessage flushes one every 4 KiB), so no
+	// receiver may have one either
+	many := []int{300, 4097, 5003}
+	if !c.Quick() {
+		many = append(many, 8193, 20011, 66000)
+	}
+	for i, n := range many {
+		parts := make([]int, n)
+		for j := range parts {
+			parts[j] = 1
+			if j%97 == 5 {
+				parts[j] = 0 // empty partial frames among them
+			}
+		}
+		su := setups()[i%2]
+		su.ReadMax = []int{0, 4096}[i%2]
+		d := &desc{Setup: su, Dirs: []bool{i%2 == 0}, API: []string{apis[i%3]}, Chunk: 1 + n/7,
+			Msgs: [][]ss.Msg{{{Kind: "direct", Chunks: chunksOf(i, parts)}, {Kind: "direct", Chunks: chunksOf(i+3, []int{2})}}}}
+		try(d)
+		c.Count("many-frames")
 	}
 	// 2d. file transfer: PutFile on one end, GetFile on the other (sizes around the 64 KiB read buffer),
 	// between other traffic, both directions, plaintext and AES-GCM
